@@ -404,12 +404,13 @@ func (cs *clientStream) RecvMsg(m any) error {
 
 // Server is a simulated grpc.Server.
 type Server struct {
-	mu       sync.Mutex
-	services map[string]*service
-	lis      []gonet.Listener
-	stopped  chan struct{}
-	stopOnce sync.Once
-	streams  []*Stream
+	mu        sync.Mutex
+	services  map[string]*service
+	lis       []gonet.Listener
+	stopped   chan struct{}
+	stopOnce  sync.Once
+	streams   []*Stream
+	isStopped bool
 }
 
 type service struct {
@@ -440,11 +441,16 @@ func (s *Server) GetServiceInfo() map[string]grpc.ServiceInfo { return nil }
 // Serve registers the server at the listener's address and blocks until Stop.
 func (s *Server) Serve(lis gonet.Listener) error {
 	p := simnet.Port(lis.Addr().String())
+	s.mu.Lock()
+	if s.isStopped {
+		s.mu.Unlock()
+		lis.Close()
+		return grpc.ErrServerStopped // as grpc.Server.Serve does after Stop
+	}
+	s.lis = append(s.lis, lis)
 	regMu.Lock()
 	servers[p] = s
 	regMu.Unlock()
-	s.mu.Lock()
-	s.lis = append(s.lis, lis)
 	s.mu.Unlock()
 	simrt.Recv(s.stopped)
 	return nil
@@ -461,6 +467,7 @@ func (s *Server) Stop() {
 		}
 		regMu.Unlock()
 		s.mu.Lock()
+		s.isStopped = true // no stream can be added after the snapshot below
 		ls, sts := s.lis, s.streams
 		s.mu.Unlock()
 		for _, l := range ls {
@@ -507,6 +514,10 @@ func (s *Server) StartStream(cctx context.Context, method, target string) (*Stre
 	}
 	st := newStream(cctx, method, target)
 	s.mu.Lock()
+	if s.isStopped {
+		s.mu.Unlock()
+		return nil, status.Error(codes.Unavailable, "server stopped")
+	}
 	s.streams = append(s.streams, st)
 	s.mu.Unlock()
 	if h := getHooks(); h.StreamCreated != nil {
